@@ -23,6 +23,15 @@
 (* Merged(all results), for every arrival order, with and without          *)
 (* streaming.                                                              *)
 (*                                                                         *)
+(* The rows of a result are a SEQUENCE; Merged(S) gives their set.  Their  *)
+(* order is the subject of spec/results/Sorting.tla (C14): a function of   *)
+(* the row set and the sort key / direction asked for.  For this property  *)
+(* that means: all arrival orders of the same host results return the rows *)
+(* in the same order - the forward replay executes every behaviour under   *)
+(* seven sort variants (key x direction x ascending) and compares the      *)
+(* returned sequences across the arrival orders of one multiset; the pools *)
+(* contain rows that tie under every sort key.                             *)
+(*                                                                         *)
 (* AsBuilt is a set of switches that turn the incremental step into what   *)
 (* the code was seen to do where that deviates from the statement; the     *)
 (* property is checked with AsBuilt = {}, every switch is used by a        *)
